@@ -8,6 +8,7 @@ import AnyVecModel.Proofs.KernelApiAccess
 import AnyVecModel.Proofs.KernelDelegAccess
 import AnyVecModel.Proofs.KernelDelegValue
 import AnyVecModel.Props.Refine
+import AnyVecModel.Props.RefineMulti
 import AnyVecModel.Proofs.KernelSwap
 namespace AnyVec
 namespace C13
@@ -163,6 +164,27 @@ theorem swaps_are_the_source (known otherKnown : Bool) :
           [.call "as_bytes_mut" [], .call "as_mut_ptr" [], .call "as_bytes_mut" [], .call "as_mut_ptr" [], .call "len" [],
            .call "ptr::swap_nonoverlapping" []]]] :=
   KernelTie.swap_unchecked_tie known otherKnown
+
+/-! ### a swap between two vectors against the abstract state of all vectors (Props/RefineMulti.lean) -/
+
+/-- **a swap through two element handles exchanges exactly those two elements**: in any world that shows an abstract state
+of all its vectors, `swap(v.at_mut(i), u.at_mut(j))` on two distinct live vectors leads to a world that shows the same
+state with item `i` of `v` and item `j` of `u` exchanged - the *identities* change places, so no byte of either is mixed
+with another element's, nothing is cloned, nothing destroyed, lengths and capacities stay - or, when an index is out of
+range or the element types differ, panics before anything is touched (`SwapStep.nothing`). Every other vector is
+unchanged either way. -/
+theorem swap_between_vectors_refines (cfg : Cfg) (w : World) (ms : RefineMulti.MSpec) (h : RefineMulti.MRel w ms)
+    (v u i j : Nat) (hvu : v ≠ u) (a au : RefineMulti.AVec)
+    (hv : ms.vecs[v]? = some (some a)) (hu : ms.vecs[u]? = some (some au)) :
+    ∃ ms', RefineMulti.SwapStep ms v u i j a au ms' ∧ RefineMulti.MRel (World.step cfg (.eswap v i u j) w).1 ms' ∧
+      (World.step cfg (.eswap v i u j) w).2.notUb :=
+  RefineMulti.eswap_refines cfg w ms h v u i j hvu a au hv hu
+
+/-- non-vacuity: in range and with equal element types the step is the exchange -/
+example : RefineMulti.SwapStep ⟨[some ⟨0, [5, 6], 2, false, true⟩, some ⟨0, [7], 4, false, true⟩], 8⟩ 0 1 1 0
+    ⟨0, [5, 6], 2, false, true⟩ ⟨0, [7], 4, false, true⟩
+    ⟨[some ⟨0, [5, 7], 2, false, true⟩, some ⟨0, [6], 4, false, true⟩], 8⟩ :=
+  RefineMulti.SwapStep.swapped (by decide) (by decide) rfl
 
 end C13
 end AnyVec
